@@ -62,7 +62,13 @@ impl Entry {
 }
 
 #[derive(Clone)]
-struct IgnoreStack(Arc<Vec<Gitignore>>);
+struct IgnoreStack {
+    rules: Arc<Vec<Gitignore>>,
+    /// The number of the global rules at the bottom of the stack
+    global: usize,
+    /// The position of the first of the rules collected since the last followed link
+    own: usize,
+}
 
 impl IgnoreStack {
     /// Returns ignore stack initialized with global gitignore settings.
@@ -73,12 +79,20 @@ impl IgnoreStack {
                 log.warn(format!("Error loading global gitignore rules: {err}"))
             }
         }
-        IgnoreStack(Arc::new(vec![gitignore.0]))
+        IgnoreStack {
+            rules: Arc::new(vec![gitignore.0]),
+            global: 1,
+            own: 1,
+        }
     }
 
     /// Returns an empty gitignore stack that ignores no files.
     pub fn empty() -> IgnoreStack {
-        IgnoreStack(Arc::new(vec![]))
+        IgnoreStack {
+            rules: Arc::new(vec![]),
+            global: 0,
+            own: 0,
+        }
     }
 
     /// If `.gitignore` or `.fdignore` files exist in given dir, creates a `Gitignore` struct for them
@@ -109,7 +123,7 @@ impl IgnoreStack {
         }
         // When following links, the same directory can be entered again with a stack that
         // contains its ignore files already.
-        if self.0.iter().any(|g| g.path() == dir.to_path_buf()) {
+        if self.rules.iter().any(|g| g.path() == dir.to_path_buf()) {
             return self.clone();
         }
         let gitignore = match builder.build() {
@@ -125,20 +139,39 @@ impl IgnoreStack {
                 return self.clone();
             }
         };
-        let mut stack = self.0.as_ref().clone();
+        let mut stack = self.rules.as_ref().clone();
         stack.push(gitignore);
-        IgnoreStack(Arc::new(stack))
+        IgnoreStack {
+            rules: Arc::new(stack),
+            ..*self
+        }
+    }
+
+    /// Returns the stack for the target of a link found in the directory this stack is for.
+    /// The target is subject to the global rules and the rules collected on the way to the link
+    /// since the previous link, but not to the rules that link has brought. Otherwise
+    /// the stacks a directory can be reached with, each of which means a separate visit,
+    /// would multiply with every link on the route.
+    pub fn through_link(&self) -> IgnoreStack {
+        let mut stack = self.rules[..self.global].to_vec();
+        stack.extend_from_slice(&self.rules[self.own..]);
+        IgnoreStack {
+            own: stack.len(),
+            rules: Arc::new(stack),
+            global: self.global,
+        }
     }
 
     /// Identifies the ignore rules of this stack: the directories the ignore files were
-    /// loaded from, in order.
+    /// loaded from, in order, and which of them a link target would inherit.
     fn id(&self) -> u64 {
         use std::hash::{Hash, Hasher};
         let mut hasher = std::collections::hash_map::DefaultHasher::new();
-        for gitignore in self.0.iter() {
+        for gitignore in self.rules.iter() {
             gitignore.path().hash(&mut hasher);
         }
-        self.0.len().hash(&mut hasher);
+        self.rules.len().hash(&mut hasher);
+        self.own.hash(&mut hasher);
         hasher.finish()
     }
 
@@ -147,11 +180,11 @@ impl IgnoreStack {
     /// over the rules of their parents, so they can include a path again with `!`.
     pub fn matches(&self, path: &Path, is_dir: bool) -> bool {
         // this is on critical performance path, so avoid unnecessary to_path_buf conversion
-        if self.0.is_empty() {
+        if self.rules.is_empty() {
             return false;
         }
         let path = path.to_path_buf();
-        for gitignore in self.0.iter().rev() {
+        for gitignore in self.rules.iter().rev() {
             let matched = gitignore.matched(&path, is_dir);
             if matched.is_ignore() {
                 return true;
@@ -414,6 +447,7 @@ impl<'a> Walk<'a> {
                 Ok((_, EntryType::File)) if self.report_links => self.visit_file(path, state),
                 Ok((target, _)) => {
                     if self.follow_links && (!self.one_fs || self.same_fs(&target, dev)) {
+                        let gitignore = gitignore.through_link();
                         self.visit_path(target, dev, scope, level, gitignore, state);
                     }
                 }
